@@ -534,7 +534,7 @@ def _hist_spec(harness, tier, what, extra_cfgs, extra_conds=(), base=None):
                     'protocol-legal peer, application cancel (optionally racing the next event) / emit / complete / fail / '
                     'request(n), connection loss by EOF / transport error / close() - then a final connection loss. ' + what,
         bounds=['k <= %s events per history (leading events fixed per process, rest symbolic), all six roles' % ('3 (2 in the extra configurations)' if q else '4 for request-response/request-stream roles, 3 for channel roles and the extra configurations'),
-                'request-n 31-bit symbolic; configurations: plain%s' % ''.join(', ' + '+'.join(sorted(c)) for c in extra_cfgs),
+                'request-n 31-bit symbolic; configurations: plain%s' % ''.join(', ' + '+'.join(sorted(x for x in c if x != 'only_roles')) for c in extra_cfgs),
                 'peer behaviour filtered by the legality automaton in harness/hist.py (what this library itself may emit)',
                 '%d partitions' % len(parts)],
         outside=['histories longer than k, more than one interaction under test plus one bystander, illegal peers (C12)'],
